@@ -85,10 +85,19 @@ type FaultWriter struct {
 	M      *MC
 	Failed error
 	Writes int
+	// Transient: the fault is a one-off - Write calls that come after the failed one are accepted
+	// (counted in After, their bytes are not recorded). An encoder has to report the failure it saw
+	// whatever happens to later writes.
+	Transient bool
+	After     int
 }
 
 func (w *FaultWriter) Write(p []byte) (int, error) {
 	w.Writes++
+	if w.Failed != nil && w.Transient {
+		w.After++
+		return len(p), nil
+	}
 	if w.Failed != nil {
 		// a failed writer keeps failing; an encoder that carries on after an error is caught by the prefix oracle
 		return 0, w.Failed
